@@ -7,7 +7,7 @@
    one step (a crash INSIDE store.Set — torn file — is outside the step model), the step lists are those of the code
    (tied by the trace correspondence of harness/cmd/c07: Run/RunC07.v). *)
 From Coq Require Import List NArith Bool.
-From Gluon Require Import Model.CrashSteps Proofs.CrashStepsProofs.
+From Gluon Require Import Model.CrashSteps Proofs.CrashStepsProofs Gen.FactsStartup.
 Import ListNotations.
 Open Scope N_scope.
 
@@ -56,6 +56,31 @@ Theorem C07_no_orphan_files_after_recover : forall m p, In p (m_store (cs_recove
   cs_has_msg (m_db (cs_recover m)) (fst p) = true.
 Proof. exact recover_no_orphans. Qed.
 Print Assumptions C07_no_orphan_files_after_recover.
+
+(* T1: the orders the model relies on, as the translator reads them from the source on every run
+   (internal/backend/user.go newUser / deleteAllMessagesMarkedDeleted / removeState, connector_updates.go applyMessageDeleted) *)
+Theorem C07_source_orders : startup_purge_before_sweep = true /\ startup_rows_before_files = true /\
+  session_end_rows_before_files = true /\ conn_delete_releases_remote_id = true.
+Proof. exact (conj eq_refl (conj eq_refl (conj eq_refl eq_refl))). Qed.
+Print Assumptions C07_source_orders.
+
+(* the same statement for the start-up order FOUND IN THE SOURCE (does not type-check when newUser sweeps before it purges) *)
+Theorem C07_no_orphan_files_after_recover_src : forall m p, In p (m_store (cs_recover_ord startup_purge_before_sweep m)) ->
+  cs_has_msg (m_db (cs_recover_ord startup_purge_before_sweep m)) (fst p) = true.
+Proof. exact recover_no_orphans. Qed.
+Print Assumptions C07_no_orphan_files_after_recover_src.
+
+(* with the sweep BEFORE the purge the statement is false: message 1 and 2 are marked, the cache file of 1 is already
+   missing; the delete loop stops at 1 and the file of 2 stays although its row is gone *)
+Theorem C07_sweep_before_purge_leaves_orphans : exists m p, cs_fk (m_db m) /\ cs_marked_unlisted (m_db m) /\
+  In p (m_store (cs_recover_ord false m)) /\ cs_has_msg (m_db (cs_recover_ord false m)) (fst p) = false.
+Proof.
+  exists (mkM [(2, [7]); (3, [8])] (mkDb [(1, 0)] [(1, true); (2, true); (3, false)] [(1, 1, 3)] []) None), (2, [7]).
+  split; [intros r [H|[]]; subst r; reflexivity|]. split; [|vm_compute; auto].
+  intros id H. unfold cs_listed. cbn [m_db db_rows existsb row_msg snd]. rewrite Bool.orb_false_r.
+  apply N.eqb_neq. intros E. subst id. vm_compute in H. discriminate.
+Qed.
+Print Assumptions C07_sweep_before_purge_leaves_orphans.
 
 (* ... and no message is marked for deletion any more — PROVIDED no marked message is still listed in a mailbox
    (what applyMessageDeleted/applyMessageUpdated establish after C06-fix-3); see C07_marked_listed_blocks_purge below *)
